@@ -7,3 +7,33 @@ mod tasks;
 pub use event::{Event, ProcessorError, ProcessorStatus};
 pub(crate) use pipeline::Pipeline;
 pub(crate) use tasks::TaskTracker;
+
+/// Verification hook: run operations one after another through a fresh system-level event
+/// pipeline (ingest, then log-prune) over the given store and report for each whether it completed
+/// or failed.
+#[cfg(p2panda_p2panda_verif)]
+pub async fn verif_pipeline_process(
+    store: p2panda_store::SqliteStore,
+    inputs: Vec<(
+        p2panda_core::Operation<()>,
+        crate::operation::LogId,
+        p2panda_core::Topic,
+        bool,
+    )>,
+) -> Vec<(bool, bool)> {
+    let pipeline =
+        Pipeline::<crate::operation::LogId, (), p2panda_core::Topic>::new(store, TaskTracker::new());
+    let mut results = Vec::new();
+    for (operation, log_id, topic, prune_flag) in inputs {
+        let event = pipeline
+            .process(Event::new(
+                operation,
+                log_id,
+                topic,
+                p2panda_core::PruneFlag::new(prune_flag),
+            ))
+            .await;
+        results.push((event.is_completed(), event.is_failed()));
+    }
+    results
+}
